@@ -72,6 +72,12 @@ def gecko_reader_ok(rb):
     a_ty = strip(reads[0]["args"][0]).get("ty") or ""
     if "[u8; 4]" not in a_ty or a_id is None or b_id is None:
         return False
+    # the bytes stored are the bytes read: neither buffer is touched by anything but its read
+    from props import C08
+    names = {strip(reads[0]["args"][0]).get("name"), strip(reads[1]["args"][0]).get("name")}
+    for pl, n in C08.mutations(root):
+        if pl in names and not any(n is a or n is strip(a) for r_ in reads for a in r_["args"]):
+            return False
     for n in tir.walk(root):
         if n.get("k") == "Struct" and (n.get("path") or "").endswith("GeckoCodes"):
             f = {x["name"]: x["e"] for x in n["fields"]}
